@@ -15,15 +15,25 @@ use simcore::Tier;
 use std::path::Path;
 use std::sync::Arc;
 
-pub struct C06T;
+/// `c05`: the same executions judged by C05's oracle as well - what each reader task observes on
+/// the damaged container is, leaf by leaf, what the pristine container says or an error.
+pub struct C06T {
+    pub c05: bool,
+}
+
+static PRISTINE: std::sync::Mutex<Option<std::collections::HashMap<u64, Arc<dump::Dump>>>> = std::sync::Mutex::new(None);
 
 impl TCheck for C06T {
     fn id(&self) -> &'static str {
-        "C06"
+        if self.c05 {
+            "C05"
+        } else {
+            "C06"
+        }
     }
     fn works(&self, tier: Tier) -> u64 {
         match tier {
-            Tier::Quick => 900,
+            Tier::Quick => if self.c05 { 6000 } else { 900 },
             Tier::Thorough => 40_000,
         }
     }
@@ -81,7 +91,18 @@ impl TCheck for C06T {
         let pristine: Vec<Vec<u8>> = names.iter().map(|n| std::fs::read(dir.join(n)).expect("image file")).collect();
         // the fault: mostly damage inside the content pack (cluster data and tails)
         let mut rng = Rng::derive(seed, "c06t-fault", work);
-        let fi = if rng.chance(4, 5) { 2 } else { rng.usize_below(3) };
+        let fi = if self.c05 {
+            // metadata first: directory pack (stores, entries, index headers), then the others
+            match rng.below(10) {
+                0..=5 => 1,
+                6 => 0,
+                _ => 2,
+            }
+        } else if rng.chance(4, 5) {
+            2
+        } else {
+            rng.usize_below(3)
+        };
         let len = pristine[fi].len() as u64;
         let spans = layout::scan_file(&pristine[fi]);
         let body_lo = 128.min(len - 1);
@@ -121,6 +142,44 @@ impl TCheck for C06T {
             std::fs::write(case_dir.join(n), b).unwrap();
         }
         let spec = Arc::new(DumpSpec::for_model(&image.model));
+        // what the undamaged container says (once per image and process), read in a sequential
+        // simulated execution
+        let pristine: Arc<dump::Dump> = {
+            let mut cache = PRISTINE.lock().unwrap();
+            let map = cache.get_or_insert_with(Default::default);
+            match map.get(&image_no) {
+                Some(d) => Arc::clone(d),
+                None => {
+                    let out: Arc<std::sync::Mutex<dump::Dump>> = Arc::new(std::sync::Mutex::new(dump::Dump::default()));
+                    let out2 = Arc::clone(&out);
+                    let spec2 = Arc::clone(&spec);
+                    let pentry = dir.join("img.jbkm");
+                    hooks.begin(&[], false);
+                    let rep = crate::exec::run_execution(
+                        crate::exec::Plan::Explore {
+                            seed: 1,
+                            strategy: crate::sched::Strategy::Lowest,
+                        },
+                        move || {
+                            if let Ok(c) = jubako::reader::Container::new(&pentry) {
+                                let mut d = dump::Dump::default();
+                                dump::dump_opened(&c, &spec2, &mut d);
+                                *out2.lock().unwrap() = d;
+                            }
+                        },
+                    );
+                    let _ = hooks.take();
+                    let d = std::mem::take(&mut *out.lock().unwrap());
+                    if rep.outcome != crate::exec::Outcome::Completed || d.0.is_empty() {
+                        simcore::harness_error("c06t: the pristine image does not read");
+                    }
+                    let d = Arc::new(d);
+                    map.insert(image_no, Arc::clone(&d));
+                    d
+                }
+            }
+        };
+        let c05 = self.c05;
         let entry = case_dir.join("img.jbkm");
         let knobs = vec![
             ("decode_chunk", *rng.pick(&[7u64, 64, 4096])),
@@ -146,14 +205,23 @@ impl TCheck for C06T {
                     Ok(container) => {
                         let container = Arc::new(container);
                         let leaves = Arc::new(std::sync::Mutex::new((0u64, 0u64)));
+                        let diffs: Arc<std::sync::Mutex<Vec<String>>> = Arc::new(std::sync::Mutex::new(vec![]));
                         let mut handles = vec![];
-                        for _ in 0..readers {
+                        for r in 0..readers {
                             let container = Arc::clone(&container);
                             let spec = Arc::clone(&spec);
                             let leaves = Arc::clone(&leaves);
+                            let diffs = Arc::clone(&diffs);
+                            let pristine = Arc::clone(&pristine);
                             let job = move || {
                                 let mut d = dump::Dump::default();
                                 dump::dump_opened(&container, &spec, &mut d);
+                                if c05 {
+                                    // C05: every structural leaf is what was written, or an error
+                                    if let Some(x) = dump::structural_diff(&pristine, &d).first() {
+                                        diffs.lock().unwrap().push(format!("reader {r}: {x}"));
+                                    }
+                                }
                                 let mut l = leaves.lock().unwrap();
                                 l.0 += d.0.len() as u64;
                                 l.1 += d.0.iter().filter(|(_, x)| x.is_err()).count() as u64;
@@ -167,6 +235,7 @@ impl TCheck for C06T {
                         for h in handles {
                             let _ = h.join();
                         }
+                        rep.complaints.extend(diffs.lock().unwrap().iter().cloned());
                         let l = leaves.lock().unwrap();
                         rep.notes.insert("dump_leaves".into(), l.0);
                         rep.notes.insert("error_leaves".into(), l.1);
@@ -183,7 +252,17 @@ impl TCheck for C06T {
             post: None,
         }
     }
+    fn pass_decides(&self) -> String {
+        if self.c05 {
+            "C05 when several reader tasks share the opened, damaged container: what each of them observes (under seeded schedules, with scheduling points inside every block-CRC computation) is what was written or an error - a check that one thread is still computing must not let another thread through".into()
+        } else {
+            "non-termination as a fact about a schedule: every task blocked (deadlock) or the 2M step bound (spinning)".into()
+        }
+    }
     fn rule(&self) -> String {
+        if self.c05 {
+            return "T-flavour pass of C05: 12 compressed containers x seeded damage (flips, zeroed / overwritten ranges, truncation; 60 % inside the directory pack) read by 1..3 reader tasks under the simulator's scheduler, three schedules each; every reader's full dump is compared leaf by leaf with the pristine dump (equal or error; content bytes only with failing checks)".into();
+        }
         "T-flavour pass of C06: 12 compressed containers x seeded damage (flips, zeroed / overwritten ranges, truncation; 80 % inside the content pack) read under the simulator's scheduler (reader task + decoder jobs), two schedules each".into()
     }
     fn real_vs_stub(&self) -> Value {
